@@ -19,7 +19,7 @@ RULE = ('one case = (representation, p, polynomial code n, operation) with opera
         '(p, d) for find_irreducible; every code is enumerated exactly once per representation; '
         'non-trivial = polynomial of degree >= 1')
 ASSUMPTIONS = ['reference factor table (mc/ref/polys.py: sieve by schoolbook multiplication, cross-checked '
-               'against trial division for every entry of degree <= 6 (p=2) / the whole quick-tier table otherwise)',
+               'against trial division for every code < 2048 in every job)',
                'Python int arithmetic',
                'the generic list representation at p=2 is instantiated as a direct subclass of gfpx.Polynomial '
                'with p=2 (GFpX(2) itself always returns BinaryPolynomial)',
@@ -27,22 +27,22 @@ ASSUMPTIONS = ['reference factor table (mc/ref/polys.py: sieve by schoolbook mul
 
 # degree bound D of the table per representation and prime: (kind, p) -> D
 DOMAINS = {
-    'quick': {('binary', 2): 10, ('generic', 2): 9, ('generic', 3): 6, ('generic', 5): 4,
-              ('generic', 7): 3, ('generic', 11): 2, ('generic', 13): 2},
-    'thorough': {('binary', 2): 14, ('generic', 2): 12, ('generic', 3): 8, ('generic', 5): 5,
-                 ('generic', 7): 4, ('generic', 11): 3, ('generic', 13): 3, ('generic', 17): 2,
+    'quick': {('binary', 2): 12, ('generic', 2): 10, ('generic', 3): 7, ('generic', 5): 4,
+              ('generic', 7): 4, ('generic', 11): 2, ('generic', 13): 2},
+    'thorough': {('binary', 2): 15, ('generic', 2): 13, ('generic', 3): 9, ('generic', 5): 6,
+                 ('generic', 7): 5, ('generic', 11): 3, ('generic', 13): 3, ('generic', 17): 3,
                  ('generic', 31): 2},
 }
 SMALL_PRIMES = [2, 3, 5, 7, 11, 13, 17, 19, 23, 29, 31, 37, 41, 43, 47, 53, 59, 61, 67, 71, 73, 79, 83, 89, 97,
                 101, 103, 107, 109, 113, 127, 131, 251, 257]
-BIG_PRIMES = [65537, 2**31 - 1, 2**61 - 1]      # degree 1 only (and degree 2, 3 for 65537 in thorough)
+BIG_PRIMES = [65537, 2**31 - 1, 2**61 - 1]      # degree 1 only (and degree 2 for 65537 in thorough)
 
 MANIFEST = dict(
     level='exploration',
     technique='bounded-exhaustive enumeration of all polynomials of bounded degree against a brute-force factor table',
-    text='Every polynomial of degree <= 10 (14 thorough) over GF(2) in the integer representation, <= 9 (12) over GF(2) '
-         'in the generic list representation, <= 6 (8) over GF(3), <= 4 (5) over GF(5), <= 3 (4) over GF(7), <= 2 (3) over '
-         'GF(11), GF(13) (thorough also degree <= 2 over GF(17), GF(31)): is_irreducible equals the factor table '
+    text='Every polynomial of degree <= 12 (15 thorough) over GF(2) in the integer representation, <= 10 (13) over GF(2) '
+         'in the generic list representation, <= 7 (9) over GF(3), <= 4 (6) over GF(5), <= 4 (5) over GF(7), <= 2 (3) over '
+         'GF(11), GF(13) (thorough also degree <= 3 over GF(17), <= 2 over GF(31)): is_irreducible equals the factor table '
          '(irreducible iff degree >= 1 and not a product of two polynomials of degree >= 1); next_irreducible(a) equals '
          'the smallest irreducible above a in the integer order for every a one degree below the table bound; '
          'finfields.GF(a) returns a field with modulus a iff a is irreducible and raises otherwise; '
@@ -102,7 +102,7 @@ def table(p, D):
         T = R.irreducible_table(p, D)
         size = len(T)
         # cross-check the sieve with trial division (independent second method)
-        chk = min(size, p**7 if p == 2 else 2500)
+        chk = min(size, 2048)
         for n in range(chk):
             if bool(T[n]) != R.is_irreducible_trial(R.from_int(n, p), p):
                 raise AssertionError(f'reference sieve and trial division disagree at p={p} n={n}')
@@ -256,7 +256,7 @@ def find_domain(tier):
     for p in BIG_PRIMES:
         out.append((p, 1))
     if tier == 'thorough':
-        out += [(65537, 2), (65537, 3)]
+        out += [(65537, 2)]
     return out
 
 
@@ -264,7 +264,7 @@ def jobs(tier, seed):
     out = []
     for (kind, p), D in sorted(DOMAINS[tier].items()):
         size = p**(D + 1)
-        k = max(2, min(12, size // (600 if tier == 'quick' else 2500)))
+        k = max(2, min(6, size // 1500)) if tier == 'quick' else max(2, min(8, size // 8000))
         for i in range(k):
             out.append(dict(what='table', kind=kind, p=p, D=D, start=i, step=k))
     fd = find_domain(tier)
